@@ -60,30 +60,35 @@ StepRec(o, r) == [op |-> o.op, p |-> SegsOf(o.p), q |-> IF o.q = Root THEN <<>> 
                   r |-> r.r, ewhat |-> r.e.what, epath |-> IF r.e.path = "" THEN <<>> ELSE SegsOf(r.e.path),
                   obs |-> ObsSeq(r.fs), rootfiles |-> DirFiles(r.fs, Root), canon |-> CanonSeq(r.fs)]
 
+(* hist holds the operations only; the step records (expected outcome and observations) are *)
+(* rebuilt from the empty tree when a history is printed                                    *)
+RECURSIVE Build(_, _, _)
+Build(f, ops, i) == IF i > Len(ops) THEN <<>>
+                    ELSE LET r == Apply(f, ops[i]) IN <<StepRec(ops[i], r)>> \o Build(r.fs, ops, i + 1)
+
 Init == fs = Empty /\ hist = <<>> /\ phase = IF Mode = "bfs" THEN "grow" ELSE "walk"
 
-Effective(f, o) == Feasible(f, o) /\ Apply(f, o).r = "true" /\ Apply(f, o).fs # f
+Effective(f, o) == IF Feasible(f, o) THEN (LET r == Apply(f, o) IN r.r = "true" /\ r.fs # f) ELSE FALSE
 
 Grow == /\ phase = "grow" /\ Len(hist) < Depth
         /\ \E o \in Muts : /\ Effective(fs, o)
-                           /\ LET r == Apply(fs, o) IN
-                              fs' = r.fs /\ hist' = Append(hist, StepRec(o, r)) /\ phase' = "grow"
+                           /\ fs' = Apply(fs, o).fs /\ hist' = Append(hist, o) /\ phase' = "grow"
 Leaf == /\ phase = "grow"
         /\ \E o \in Muts : /\ Feasible(fs, o)
-                           /\ LET r == Apply(fs, o) IN
-                              fs' = r.fs /\ hist' = Append(hist, StepRec(o, r)) /\ phase' = "leaf"
+                           /\ fs' = Apply(fs, o).fs /\ hist' = Append(hist, o) /\ phase' = "leaf"
+(* random histories: two effective operations (if any exists), then an arbitrary one *)
 Walk == /\ phase = "walk" /\ Len(hist) < Depth
-        /\ \E o \in Muts : /\ Feasible(fs, o)
-                           /\ (IF (Len(hist) % 3) # 2 /\ (\E o2 \in Muts : Effective(fs, o2))
-                               THEN Effective(fs, o) ELSE TRUE)
-                           /\ LET r == Apply(fs, o) IN
-                              fs' = r.fs /\ hist' = Append(hist, StepRec(o, r)) /\ phase' = "walk"
-Next == Grow \/ Leaf \/ Walk
+        /\ LET eff == {o \in Muts : Effective(fs, o)}
+               cand == IF (Len(hist) % 3) # 2 /\ eff # {} THEN eff ELSE {o \in Muts : Feasible(fs, o)}
+           IN \E o \in cand : fs' = Apply(fs, o).fs /\ hist' = Append(hist, o) /\ phase' = "walk"
+(* in simulation TLC evaluates the invariants on ALL successors of the current state before it picks *)
+(* one: the finished walk is therefore printed from its single "done" successor                      *)
+Done == phase = "walk" /\ Len(hist) = Depth /\ phase' = "done" /\ UNCHANGED <<fs, hist>>
+Next == Grow \/ Leaf \/ Walk \/ Done
 
-OpsOf(h) == [i \in 1..Len(h) |-> <<h[i].op, h[i].p, h[i].q, h[i].n>>]
-View == IF phase = "grow" THEN <<phase, fs>> ELSE <<phase, OpsOf(hist)>>
+View == IF phase = "grow" THEN <<phase, fs>> ELSE <<phase, hist>>
 
-Emit == ((phase = "leaf") \/ (phase = "walk" /\ Len(hist) = Depth)) => PrintT(ToJson([hist |-> hist]))
+Emit == (phase \in {"leaf", "done"}) => PrintT(ToJson([hist |-> Build(Empty, hist, 1)]))
 
 WfInv == Wf(fs)
 
